@@ -11,5 +11,11 @@ def fill(add, not_yet):
     add("C13", "Lean 4 theorems (chunk_array partitions every axis for every block size; tiles partition the output; any interleaving of task programs gives the same array) + exact correspondence of chunk/tile lists + bitwise schedule exploration",
         "Proof for the decomposition logic (chunk_partition, tiles_partition, schedule_independent, untouched) for all sizes, block sizes and interleavings; the tile lists the theorems speak about are compared with the views arim really hands to its executor; bitwise equality is explored under permuted, lazy and real executors, thread counts, block sizes and numba thread counts.",
         STD_NOTE + "Real concurrency inside numba prange/nogil kernels and the thread pool is explored, not proved.")
-    for p in ["C02","C03","C04","C05","C06","C07","C08","C09","C10","C11","C12","C14","C15","C16","C17","C18","C19","C20"]:
+    add("C15", "Lean 4 theorems about the frame model (enumerations, capture inference, weights, expansion by reciprocity, sub-frames by NumPy index kinds) + exact history correspondence with arim.core.Frame",
+        "Proof of the bookkeeping laws on the executable model for all element counts, frames and indices; the model is run on the same random operation histories as arim (state compared exactly after every operation); the set/multiset statements of the property are evaluated on arim's own arrays.",
+        STD_NOTE + "Indices with repeated elements are outside the property's quantifier.")
+    add("C20", "Lean 4 theorems about recursive merge and sorted fragment loading + exact correspondence with Config.merge/load_conf under every directory-listing permutation + file round-trip oracles",
+        "Proof on the tree model (merge laws, order independence of the sorted load, counter-witness for unsorted loading); load_conf is run with the conf.d enumeration substituted by every permutation and compared exactly with the model; builders and BRAIN files are compared field by field with the generating values.",
+        STD_NOTE + "YAML, scipy.io and the OS are external; HDF5 (v7.3) files cannot be exercised (h5py absent).")
+    for p in ["C02","C03","C04","C05","C06","C07","C08","C09","C10","C11","C12","C14","C16","C17","C18","C19"]:
         not_yet[p] = "check not built yet in this round (work in progress; Lean-4 proof + correspondence planned, see DESIGN.md section 6)"
